@@ -887,10 +887,13 @@ class BaseCallable(TraitType):
     #: A description of the type of value this trait accepts:
     info_text = "a callable value"
 
+    #: Whether None is an acceptable value.
+    allow_none = True
+
     def validate(self, object, name, value):
         """ Validates that the value is a Python callable.
         """
-        if (value is None) or callable(value):
+        if (value is None and self.allow_none) or callable(value):
             return value
 
         self.error(object, name, value)
@@ -902,6 +905,7 @@ class Callable(BaseCallable):
     def __init__(self, value=None, allow_none=True, **metadata):
 
         self.fast_validate = (ValidateTrait.callable, allow_none)
+        self.allow_none = allow_none
 
         default_value = metadata.pop("default_value", value)
 
